@@ -45,6 +45,12 @@ CHECKS["C15"] = dict(text="The whole evaluate pipeline runs in the twin with wri
 CHECKS["C19"] = dict(text="The real save_to_config/load_from_config, to_yaml/from_yaml, every _yaml_repr and every configurable constructor run over a structural model of ruamel's representer/constructor; the solver chooses every enumerated option lazily, thresholds are free reals and flags free Booleans (so falsy values such as 0.0, False and empty lists are covered); the loaded object graph must have the same classes and private state as the saved one and re-saving must reproduce the node tree, for the evaluator and for each component alone.",
              note="YAML text layer trusted (run for real on every replay together with a probe evaluation and loading the shipped configurations); derived attributes (_default_result, flat label list) excluded; nested components use fixed inner choices inside the evaluator cases",
              ref="DESIGN.md section 4 / C19")
+CHECKS["C05"] = dict(text="The real approximate_instances / _approximate_instances / _connected_components glue runs on fully symbolic semantic maps with the compiled back ends replaced by contract stubs parametrised by the arguments the repo actually passes; the obligations decide how the repo drives them: documented back end per dimensionality (also after the same object processed another dimensionality), full vs face connectivity, the back end sees exactly the (losslessly cast) semantic map, labels and counts reach the result unaltered for any number of components up to 2^20, negative values rejected.",
+             note="the compiled cc3d/scipy routines are trusted to meet the contract (validated on every witness against an independent flood fill on the real package); array size bound",
+             ref="DESIGN.md section 4 / C05")
+CHECKS["C07"] = dict(text="The real ASSD code path (__surface_distances, _distance_transform_edt incl. ft - indices, squaring, add.reduce, sqrt, masked mean) runs on pairs of fully symbolic Boolean masks; the result is compared by SMT query with an oracle built straight from the statement (border voxels, nearest-border distances, mean of the two directed means), plus symmetry, non-negativity, 'zero iff borders coincide', embedding invariance, and exactness of the squared distance for arbitrary feature-transform coordinates up to 2^17.",
+             note="binary_erosion / euclidean_feature_transform are contract stubs; sqrt of the finitely many squared distances are bounded monotone real constants (linear arithmetic); float last-ulp outside the claim; mask size bound",
+             ref="DESIGN.md section 4 / C07")
 NA = {}
 m = {"version": 1, "setup_cmd": "./bootstrap.sh",
      "hooks": {"guard": "PANOPTICA_VERIF", "enable": "no hooks in /repo: checks re-import /repo/panoptica from the working tree into a private twin with model modules substituted at import time (pv/twin.py)",
